@@ -31,9 +31,10 @@ Corruptions == {"none", "len", "len_plus1", "flags_opt", "flags_trans", "value",
 \* attr_overrun: the (last) attribute's declared length runs past the attribute block
 \* hdr_trunc:    the attribute block ends inside the (last) attribute's header, after flags and type
 \* block_overrun: the Total Path Attribute Length runs past the end of the message
-Bases == {"v4", "v4_wd", "v6", "v6_wd", "mix"}    \* legacy IPv4 NLRI / MP_REACH IPv6, with or without withdrawals;
+Bases == {"v4", "v4_wd", "v6", "v6_wd", "mix", "only4_wd", "only6_wd"}    \* legacy IPv4 NLRI / MP_REACH IPv6, with or without withdrawals;
                                                   \* mix: ONE UPDATE announcing both an IPv4 prefix (legacy NLRI) and an IPv6
                                                   \* prefix (MP_REACH): whatever happens, happens to both
+                                                  \* only4_wd / only6_wd: attributes and withdrawals but NO announced prefix
 Peers == {"ebgp", "ibgp"}
 
 MpAttrs == {"MP_REACH", "MP_UNREACH"}
@@ -51,7 +52,8 @@ CompMeaningful(x, at, co) ==
   /\ (co \in {"flags_opt", "flags_trans"} => at \notin Unknown)
   /\ (co = "omit"  => at \in Mandatory)
   /\ (at = "NEXT_HOP" => x.base \in {"v4", "v4_wd", "mix"})    \* MP_REACH carries its own next hop
-  /\ (x.base = "mix" => at \notin MpAttrs)               \* the faulty attribute is one that can be located and skipped
+  /\ (x.base \in {"mix", "only4_wd", "only6_wd"} => at \notin MpAttrs)   \* the faulty attribute is one that can be located and skipped
+  /\ (x.base \in {"only4_wd", "only6_wd"} => at # "NEXT_HOP")
   /\ (at = "MP_REACH" => x.base \in {"v6", "v6_wd"} /\ co \in {"none", "len", "flags_opt", "flags_trans", "dup"})
   /\ (at = "MP_UNREACH" => x.base = "v6_wd" /\ co \in {"len", "flags_opt", "flags_trans", "dup"})
   /\ (at \in Unknown => co \in {"none", "attr_overrun", "hdr_trunc"})
@@ -102,7 +104,7 @@ Keep2(x) == "ok" \in A2(x)
 Drop2(x) == "discard" \in A2(x)
 
 \* withdrawals of the same message take effect unless the session is reset
-WithdrawalsApply(x, outcome) == x.base \in {"v4_wd", "v6_wd"} /\ outcome # "reset"
+WithdrawalsApply(x, outcome) == x.base \in {"v4_wd", "v6_wd", "only4_wd", "only6_wd"} /\ outcome # "reset"
 
 Init == c \in {x \in Cases : Meaningful(x)}
 Next == UNCHANGED c
